@@ -314,7 +314,7 @@ impl Part for Datasets {
         "datasets"
     }
     fn cases(&self, tier: Tier) -> u32 {
-        tier.pick(120_000, 1_000_000)
+        tier.pick(400_000, 1_000_000)
     }
     fn strategy(&self, tier: Tier) -> BoxedStrategy<RtDataset> {
         dataset(tier)
